@@ -22,9 +22,11 @@ ASSUMPTIONS = ['hypotheses allowed in a result = hypotheses of ProofTerm / Thm o
                'polynomial equality of the two rearrangements is established by construction (value-preserving rewrites) and '
                're-checked by exact evaluation at random points']
 REQUIRED = {'quick': {'outer_calls_judged': 4000, 'exports_checked': 300, 'canon_pairs:nat': 150, 'canon_pairs:int': 150,
-                      'canon_pairs:real': 150, 'canon_pairs:prop': 300, 'lib_outer_calls': 300},
+                      'canon_pairs:real': 150, 'canon_pairs:prop': 300, 'lib_outer_calls': 300, 'levels_pairs': 60,
+                      'levels_order:limited-first': 20, 'levels_order:full-first': 20},
             'thorough': {'outer_calls_judged': 80000, 'exports_checked': 6000, 'canon_pairs:nat': 3000, 'canon_pairs:int': 3000,
-                         'canon_pairs:real': 3000, 'canon_pairs:prop': 6000, 'lib_outer_calls': 10000}}
+                         'canon_pairs:real': 3000, 'canon_pairs:prop': 6000, 'lib_outer_calls': 10000, 'levels_pairs': 2000,
+                         'levels_order:limited-first': 700, 'levels_order:full-first': 700}}
 SHARD_TIMEOUT = {'quick': 1500, 'thorough': 7200}
 
 NAT, INT, REAL, B = S.NAT, S.INT, S.REAL, S.BOOL
@@ -35,6 +37,7 @@ def shards(tier, seed):
     out = [{'kind': 'canon', 'dom': d, 'i': i, 'count': 60 if q else 800} for d in ('nat', 'int', 'real') for i in range(3 if q else 4)]
     out += [{'kind': 'canon', 'dom': 'prop', 'i': i, 'count': 220 if q else 2000} for i in range(2 if q else 3)]
     out += [{'kind': 'comb', 'i': 0, 'count': 500 if q else 6000}]
+    out += [{'kind': 'levels', 'i': i, 'count': 120 if q else 1500} for i in range(1 if q else 3)]
     out += [{'kind': 'lib', 'i': i, 'parts': 4 if q else 24, 'frac': 0.05 if q else 1.0} for i in range(4 if q else 24)]
     return out
 
@@ -357,6 +360,69 @@ def run_canon_arith(ctx, spec):
                  sample={'dom': dom, 'e1': S.tm_str(e1), 'e2': S.tm_str(e2), 'normal_form': S.tm_str(r1)} if k < 1 and spec['i'] == 0 else None)
 
 
+def run_levels(ctx, spec):
+    """W-HIST for conversions whose behaviour depends on how much of the theory is loaded (nat.norm_full: identity /
+    AC for addition / full semiring).  The same terms are normalised under a limited theory and under the full one,
+    in both orders; every call goes through the installed contract (equation about the given term, exported proof
+    checked IN THE THEORY THAT IS CURRENT), and in the full theory the normal forms of two equal polynomials must
+    coincide whatever was normalised before under another level."""
+    from logic import basic
+    from kernel import theory
+    rng = ctx.rng
+    install(ctx)
+    from data import nat
+    LEVELS = [None, ('thm', 'mult_0_right'), ('thm', 'add_cancel_left')]
+    vars_ = [var(n, NAT) for n in ('x', 'y', 'z')]
+    Mon.origin = 'levels'
+    Mon.export_every = 1
+
+    def at(level):
+        if level is None:
+            basic.load_theory('nat')
+        else:
+            basic.load_theory('nat', limit=level)
+
+    def norm(e):
+        return nat.norm_full().get_proof_term(S.to_repo_term(e))
+    for k in range(spec['count']):
+        e1 = gen_poly(rng, NAT, rng.choice([1, 2, 2, 3]), vars_)
+        e2 = rearrange(rng, e1, NAT, rng.choice([1, 2, 4]))
+        if values_agree(rng, e1, e2, vars_, NAT) is not True:
+            continue
+        lim = rng.choice(LEVELS[1:])
+        order = rng.choice(['limited-first', 'full-first'])
+        wit = {'dom': 'nat', 'e1': S.jsonable(e1), 'e2': S.jsonable(e2), 'limit': list(lim), 'order': order}
+        try:
+            first = None
+            if order == 'full-first':
+                at(None)
+                first = S.tm_shadow(norm(e1).th.prop.arg)
+            at(lim)
+            pl = norm(e1)                       # judged by the contract under the limited theory
+            ctx.count('levels_limited_calls')
+            if rng.random() < 0.5:
+                norm(e2)
+            at(None)
+            p1, p2 = norm(e1), norm(e2)
+        except Exception as e:
+            ctx.count('levels_raised:' + type(e).__name__)
+            at(None)
+            continue
+        r1, r2 = S.tm_shadow(p1.th.prop.arg), S.tm_shadow(p2.th.prop.arg)
+        ctx.count('levels_pairs')
+        ctx.count('levels_order:' + order)
+        if not S.aeq(r1, r2):
+            ctx.violation('canon:nat:equal-polynomials-get-different-normal-forms:after-normalising-under-another-theory-level',
+                          '%s -> %s but %s -> %s (full theory; %s was normalised before with the theory limited to %s)' % (
+                              S.tm_str(e1), S.tm_str(r1), S.tm_str(e2), S.tm_str(r2), S.tm_str(e1), lim), wit)
+        if first is not None and not S.aeq(first, r1):
+            ctx.violation('history:normal-form-in-the-full-theory-changes-after-a-call-under-a-limited-theory',
+                          '%s -> %s, then (after a call under limit %s) -> %s' % (S.tm_str(e1), S.tm_str(first), lim, S.tm_str(r1)), wit)
+        ctx.case(('levels', e1, e2, lim, order), nontrivial=S.size(e1) >= 3,
+                 sample={'e1': S.tm_str(e1), 'limit': list(lim), 'order': order, 'limited_result': S.tm_str(S.tm_shadow(pl.th.prop.arg)),
+                         'full_result': S.tm_str(r1)} if k < 1 else None)
+
+
 def run_canon_prop(ctx, spec):
     from logic import basic
     install(ctx)
@@ -473,6 +539,8 @@ def run_shard(ctx, spec):
         run_canon_arith(ctx, spec)
     elif k == 'comb':
         run_comb(ctx, spec)
+    elif k == 'levels':
+        run_levels(ctx, spec)
     else:
         run_lib(ctx, spec)
 
